@@ -27,17 +27,21 @@ func (p *c02) Rule() string {
 
 func (p *c02) Directed() []string {
 	return []string{"parent-refs-after-wait", "subflow-waiting-parent-paused", "results-overwritten", "webhook-result-then-wait", "batch-open-ticket-after-wait", "batch-start-session-after-wait", "missing-child-flow-on-reread", "msg-trigger-input-after-wait", "environment-refreshed-on-resume", "contact-refreshed-on-resume", "trigger-params-default-key", "datetime-field-dst-arithmetic", "date-only-field-time-fill", "long-path-visit-count", "dial-waits-resume-limit", "long-localized-category", "stale-references-every-action",
-		"trigger-history-manual-1-start-session-after-wait", "trigger-history-manual-5-start-session-after-wait", "trigger-history-msg-1-start-session-after-wait", "trigger-history-msg-5-start-session-after-wait"}
+		"trigger-history-manual-1-start-session-after-wait", "trigger-history-manual-5-start-session-after-wait", "trigger-history-msg-1-start-session-after-wait", "trigger-history-msg-5-start-session-after-wait",
+		"msg-without-uuid", "nul-in-text-kept-as-result", "refused-resume-with-contact-refresh", "refused-resume-with-environment"}
 }
 
 // histories of up to 120 resumes are executed under several restart masks, each call with a marshal / read / marshal round
 func (p *c02) CaseTimeoutS() int { return 400 }
 
 func (p *c02) Floors(tier string) []string {
-	return []string{"clause.fixed_point", "clause.mask_equal_sprints", "seen.restarts", "seen.subflow_restart", "seen.flow_action_trigger_restart", "seen.results_restart", "seen.batch_restart", "masks_run"}
+	return []string{"clause.fixed_point", "clause.mask_equal_sprints", "seen.restarts", "seen.subflow_restart", "seen.flow_action_trigger_restart", "seen.results_restart", "seen.batch_restart", "masks_run", "clause.refused_resume_then_continue"}
 }
 
 func (p *c02) directed(name string) *gen.Scenario {
+	if s := p.directedVariant(name); s != nil {
+		return s
+	}
 	d := dsl
 	act := d.Action
 	switch name {
@@ -192,9 +196,25 @@ func (p *c02) execute(res *fw.Result, scen *gen.Scenario, seed int64, mask uint6
 		return nil, 0, 0, err
 	}
 	call := 0
+	refused := c02RefusedProbes(scen)
+	var lastStored []byte // what a restarting host has: the JSON handed back by the last successful call
 	rn.RunAll(func(rec *drive.CallRecord) {
 		if reference {
 			observeCommon(res, rec)
+		}
+		if rec.OK() && rec.SessionAfter != nil {
+			lastStored = rec.SessionAfter
+		} else if rec.Kind == "resume" && rec.Err != nil && rec.Panic == nil && !rec.Budget && refused[call-1] && lastStored != nil && rn.Waiting() {
+			// a resume the engine refused: the host that keeps the object alive goes on with it, the restarting host
+			// goes on from what it stored
+			if reference {
+				res.Count("clause.refused_resume_then_continue", 1)
+			}
+			if mask&(1<<(uint(call)%64)) != 0 {
+				if err := rn.RestoreFrom(lastStored); err == nil {
+					restarts++
+				}
+			}
 		}
 		sp := c02sprint{session: normKnownNondet(string(rec.SessionAfter))}
 		sp.events = normKnownNondet(string(bytes.Join(rec.EventsJSON, []byte("\n"))))
@@ -263,6 +283,7 @@ func (p *c02) Run(c fw.Case) fw.Result {
 		} else {
 			scen = gen.Scen(r, o)
 		}
+		c02Variant(scen, r.Fork("variant"), &res)
 	}
 	res.Fingerprint = scen.Fingerprint()
 	return p.runScen(res, scen, c, r)
